@@ -114,7 +114,7 @@ func drawFrame(t *rapid.T, small bool) frame {
 }
 
 func drawCase(t *rapid.T, small bool) streamCase {
-	c := streamCase{Cut: -1, CutA: -1, WFail: -1, TailMax: drawMax(t), Reader: drawReader(t), Lazy: rapid.Bool().Draw(t, "lazy"), Det: rapid.Bool().Draw(t, "det")}
+	c := streamCase{Cut: -1, CutA: -1, WFail: -1, TailMax: drawMax(t), Reader: drawReader(t), Lazy: rapid.Bool().Draw(t, "lazy"), Det: rapid.Bool().Draw(t, "det"), Reuse: rapid.Bool().Draw(t, "reuse")}
 	n := rapid.IntRange(0, 8).Draw(t, "nframes")
 	if small {
 		n = rapid.IntRange(0, 3).Draw(t, "nframes")
